@@ -18,6 +18,7 @@ from props import factor_common as fc
 
 from props import c03_qs64 as q64
 from props import c03_squfof as sq
+from props import c01_rho as rh      # pollard_rho::rho / rho_semiprime inside the model (K stream and follow-ups: props/c01.py)
 
 # qsieve64::qsieve called DIRECTLY on inputs factor() never passes (even n, tiny n with x = n, n = k): outside C03 (the
 # property is about the factoring entry point); model and code are still compared (K), the oracle accepts the three
@@ -26,9 +27,9 @@ q64.ACCEPT_UNGUARDED = True
 
 PID = "C03"
 GEN = ["primality"]
-LEAN = ["Ymq.Props.C03"] + q64.LEAN + sq.LEAN
+LEAN = ["Ymq.Props.C03"] + q64.LEAN + sq.LEAN + ["Ymq.Props.C03Rho"]
 AUDIT = "Ymq.Audit.C03"
-THEOREMS = ['Ymq.C03.factor_total', 'Ymq.C03.factor_total_of_input', 'Ymq.C03.factorImpl_total'] + q64.THEOREMS + sq.THEOREMS
+THEOREMS = ['Ymq.C03.factor_total', 'Ymq.C03.factor_total_of_input', 'Ymq.C03.factorImpl_total'] + q64.THEOREMS + sq.THEOREMS + rh.THEOREMS_RHO
 PROFILES = ["release", "chk"]
 TIMEOUT = 60.0
 RULE = ("first, in both tiers, composites / primes / prime squares of exactly 191..193, 255..257, 319..321, 383..385, 447..449 bits (ZmodN of 3..8 words) through ecm and auto; then "
